@@ -17,6 +17,9 @@ SPECIALS = ['"', "\\", "/", "<", ">", "&", "\n", "\r", "\t", "\b", "\f", "\x00",
             "\U0010FFFF", "日", "本", " ", "a", "Z", "0", "'", "`", "$", "%", "{", "}", "[", "]", ":", ",", "#", "\v"]
 
 
+EDGE = ["\ufeff", "\n", "\r\n", "\r", " ", "\t", "\u00a0", "\u2028", "\u200b", "{", "[", '"', "#", "\x1f", "\x7f", "\ufffd", "\U0001F600", "\u0301", "\\", "\ufeff\ufeff", "\n\n"]
+
+
 def gen_text(r, for_argv=False, maxlen=40):
     n = 1 + r.n(maxlen)
     out = []
@@ -29,10 +32,15 @@ def gen_text(r, for_argv=False, maxlen=40):
         if for_argv and c == "\x00":
             c = "N"
         out.append(c)
+    # the two ends are where readers strip things (byte-order mark, newline, spaces, a JSON-looking first byte): force them often
+    if r.p(35):
+        out.insert(0, r.pick(EDGE))
+    if r.p(35):
+        out.append(r.pick(EDGE))
     return "".join(out)
 
 
-def one_round(ctx, r, st, ids, epic, big=False):
+def one_round(ctx, r, st, ids, epic, big=False, force=None):
     trace = []
     def ex(argv, stdin=None):
         rr = st.exec(argv, stdin, timeout=60)
@@ -42,10 +50,12 @@ def one_round(ctx, r, st, ids, epic, big=False):
         rr = st.exec(["--json", "show", i], timeout=60)
         v = json.loads(rr["stdout"])
         return v.get("epic", v) if isinstance(v.get("epic"), dict) else v
-    mode = r.weighted([("new-json", 20), ("new-flags", 12), ("new-bodystdin", 10), ("set-json", 20), ("set-flags", 12), ("set-bodystdin", 8), ("plan", 10), ("epic-json", 8)])
-    argv_mode = mode in ("new-flags", "set-flags", "new-bodystdin", "set-bodystdin")
+    mode = r.weighted([("new-json", 20), ("new-flags", 12), ("new-bodystdin", 10), ("set-json", 20), ("set-flags", 12), ("set-bodystdin", 8), ("plan", 10), ("epic-json", 8), ("epic-bodystdin", 5)])
+    argv_mode = mode in ("new-flags", "set-flags", "new-bodystdin", "set-bodystdin", "epic-bodystdin")
     title = gen_text(r, for_argv=argv_mode)
     body = gen_text(r, for_argv=(mode in ("new-flags", "set-flags")), maxlen=((25000 if mode in ("new-flags", "set-flags") else 300000) if big else 120))
+    if force:
+        mode, title, body = force
     if go_trim(title) == "" or title.startswith("-"):
         title = "t" + title
     if go_trim(body) == "" or body.startswith("-"):
@@ -59,6 +69,8 @@ def one_round(ctx, r, st, ids, epic, big=False):
         rr = ex(["--json", "new", "task", "--title", title, "--body", body]); want_t = go_trim(title)
     elif mode == "new-bodystdin":
         rr = ex(["--json", "new", "task", "--title", title, "--body-stdin"], body.encode()); want_t = go_trim(title)
+    elif mode == "epic-bodystdin":
+        rr = ex(["--json", "new", "epic", "--title", title, "--body-stdin"], body.encode()); want_t = go_trim(title)
     elif mode == "set-json":
         tid = r.pick(ids); rr = ex(["--json", "set", tid], json.dumps({"title": title, "body": body}, ensure_ascii=r.p(50)).encode()); want_t = go_trim(title)
     elif mode == "set-flags":
@@ -80,7 +92,7 @@ def one_round(ctx, r, st, ids, epic, big=False):
     else:
         tid = tid or out["id"]
         checks = [(tid, want_t, want_b)]
-        if tid not in ids and mode != "epic-json":
+        if tid not in ids and mode not in ("epic-json", "epic-bodystdin"):
             ids.append(tid)
     if r.p(30):
         ex(["--json", "compact"])
@@ -114,6 +126,13 @@ def run(ctx):
     st = cmdrun.Store(ctx.ergo, ctx.go)
     try:
         ids = [json.loads(st.exec(["--json", "new", "task"], b'{"title":"seed"}')["stdout"])["id"]]
+        # every edge character first and last in the body (and inside the title), through every input channel
+        for mode in ("new-json", "new-flags", "new-bodystdin", "set-json", "set-flags", "set-bodystdin", "epic-json", "epic-bodystdin", "plan"):
+            for e in EDGE:
+                if not one_round(ctx, r, st, ids, None, force=(mode, "t" + e + "x", e + "mid" + e)):
+                    return
+                if len(ids) > 30:
+                    ids[:] = ids[-10:]
         n = 120 if ctx.quick else 2500
         for i in range(n):
             if not one_round(ctx, r, st, ids, None, big=(i % 60 == 7)):
